@@ -78,6 +78,12 @@ def hostile_half(ctx, verdict, cov, quick, only=None):
     allcases = [to_json(s["cs"]) for s in core.read_state_dump(dump + ".dump")]
     if not allcases:
         raise Undecided("no alphabet cases exported")
+    # non-vacuity: with a Weak_ switch on, the alphabet contains a case whose specified consequence is not "drop/keep"
+    for w in ("BitArrayUnchecked", "ProposalTotalUnbounded"):
+        rw = ctx.tlc("C17_alphabet", "C17_weak_%s.cfg" % w, timeout=300, label="weak_" + w, workers=2)
+        if not any(v["name"] == "SpecOnlyDrops" for v in rw.violations):
+            raise Undecided("vacuity: Weak_%s does not violate SpecOnlyDrops (%s)" % (w, rw.errors[:2]))
+        cov["nonvacuity"]["Weak_%s refuted by TLC (SpecOnlyDrops)" % w] = True
     pk = available()
     todo = {}
     skipped = {}
